@@ -101,12 +101,19 @@ func (w *cworld) close() {
 
 // ---- controller construction ----
 
+type condCheck struct {
+	Type   string  `json:"type"`
+	Status *string `json:"status"`
+	Reason *string `json:"reason"`
+}
+
 type kidSpec struct {
-	APIVersion string `json:"apiVersion"`
-	Resource   string `json:"resource"`
-	Kind       string `json:"kind"`
-	Namespaced bool   `json:"namespaced"`
-	Method     string `json:"method"`
+	APIVersion string      `json:"apiVersion"`
+	Resource   string      `json:"resource"`
+	Kind       string      `json:"kind"`
+	Namespaced bool        `json:"namespaced"`
+	Method     string      `json:"method"`
+	Checks     []condCheck `json:"checks"`
 }
 
 type ctlSpec struct {
@@ -121,6 +128,7 @@ type ctlSpec struct {
 	CtlSelector      map[string]string `json:"ctlSelector"` // parentResource.labelSelector.matchLabels; nil = unset
 	Kids             []kidSpec         `json:"kids"`
 	SSA              bool              `json:"ssa"`
+	FieldPaths       []string          `json:"fieldPaths"`
 }
 
 func (s *ctlSpec) compositeController() *v1alpha1.CompositeController {
@@ -133,6 +141,9 @@ func (s *ctlSpec) compositeController() *v1alpha1.CompositeController {
 	if s.CtlSelector != nil {
 		cc.Spec.ParentResource.LabelSelector = &metav1.LabelSelector{MatchLabels: s.CtlSelector}
 	}
+	if len(s.FieldPaths) > 0 {
+		cc.Spec.ParentResource.RevisionHistory = &v1alpha1.CompositeControllerRevisionHistory{FieldPaths: s.FieldPaths}
+	}
 	gs := s.GenSelector
 	cc.Spec.GenerateSelector = &gs
 	for _, k := range s.Kids {
@@ -141,6 +152,10 @@ func (s *ctlSpec) compositeController() *v1alpha1.CompositeController {
 		rule.Resource = k.Resource
 		if k.Method != "" {
 			rule.UpdateStrategy = &v1alpha1.CompositeControllerChildUpdateStrategy{Method: v1alpha1.ChildUpdateMethod(k.Method)}
+			for _, c := range k.Checks {
+				rule.UpdateStrategy.StatusChecks.Conditions = append(rule.UpdateStrategy.StatusChecks.Conditions,
+					v1alpha1.StatusConditionCheck{Type: c.Type, Status: c.Status, Reason: c.Reason})
+			}
 		}
 		cc.Spec.ChildResources = append(cc.Spec.ChildResources, rule)
 	}
